@@ -259,6 +259,14 @@ func main() {
 			ok = false
 		}
 	}
+	if err := genFx(*out, []struct {
+		p    *pkg
+		info *types.Info
+		tag  string
+	}{{root, rootInfo, ""}, {st, stInfo, "stanza/"}}, map[string]bool{"Client.Send": true, "Client.SendRaw": true, "resendStz": true}); err != nil {
+		fmt.Fprintln(os.Stderr, err)
+		ok = false
+	}
 	for _, g := range extraGens(root, st) {
 		if err := g.write(*out); err != nil {
 			fmt.Fprintln(os.Stderr, err)
